@@ -479,18 +479,21 @@ class Body:
         return self._defs
 
     # ---------------- slices
-    def slice(self, start_locals, int_barrier=True, stop_at_calls=None, stop_locals=()):
-        """Backward may-derive slice (flow-insensitive). Returns a Slice."""
+    def slice(self, start_locals, int_barrier=True, stop_at_calls=None, stop_locals=(), start_fields=None):
+        """Backward may-derive slice (flow-insensitive; field-sensitive for direct field assignments).
+        Returns a Slice."""
         defs = self.defs()
         sl = Slice(self)
-        work = list(start_locals)
+        work = [(l, None) for l in start_locals]
+        if start_fields:
+            work = [(l, tuple(start_fields)) for l in start_locals]
         seen = set()
         stop_locals = set(stop_locals)
         while work:
-            l = work.pop()
-            if l in seen:
+            l, rf = work.pop()
+            if (l, rf) in seen or (l, None) in seen:
                 continue
-            seen.add(l)
+            seen.add((l, rf))
             sl.locals.add(l)
             if l in stop_locals:
                 continue
@@ -501,6 +504,13 @@ class Body:
                 sl.params.add(l)
             for d in defs.get(l, ()):
                 if d["kind"] == "assign":
+                    # field-sensitivity: `_l.f = ..` does not feed a read of `_l.g`
+                    if rf is not None and d.get("partial"):
+                        df = tuple(place_fields(d["stmt"]["place"]))
+                        if df and not place_has_deref(d["stmt"]["place"]):
+                            n = min(len(df), len(rf))
+                            if n and df[:n] != rf[:n]:
+                                continue
                     rv = d["stmt"]["rv"]
                     sl.assigns.append(d)
                     ops, places = rv_operands(rv)
@@ -544,7 +554,9 @@ class Body:
         fs = place_fields(p)
         if fs:
             sl.fieldreads.add((p["local"], tuple(fs)))
-        work.append(p["local"])
+        # field path is only meaningful on the local itself (not behind a deref)
+        direct = tuple(fs) if fs and not place_has_deref(p) else None
+        work.append((p["local"], direct))
         for il in place_index_locals(p):
             sl.index_locals.add(il)
 
@@ -556,8 +568,9 @@ class Body:
             if o and "const" in o:
                 sl.consts.append(o["const"])
             return sl
-        sl = self.slice([p["local"]], **kw)
         fs = place_fields(p)
+        sf = fs if fs and not place_has_deref(p) else None
+        sl = self.slice([p["local"]], start_fields=sf, **kw)
         if fs:
             sl.fieldreads.add((p["local"], tuple(fs)))
         return sl
